@@ -285,7 +285,10 @@ class Gen:
     def loop_var(self, depth):
         """counting variables: usually one name per nesting depth, sometimes the same name (and
         then often the same limit) at several depths - nested loops with identical headers"""
-        if self.rng.random() < 0.25:
+        x = self.rng.random()
+        if x < 0.08:
+            return ("n", "v")[depth % 2]      # a counting variable spelled like an attribute (d.inner.n, items[..].v)
+        if x < 0.25:
             return "i"
         return "i%d" % depth
 
